@@ -1187,6 +1187,13 @@ func (m *Memberlist) suspectNode(s *suspect) {
 
 	// If this is us we need to refute, otherwise re-broadcast
 	if state.Name == m.config.Name {
+		// Leave() raises the leave flag before it applies its own dead
+		// message. Refuting in that window would bump our incarnation past
+		// the one that message carries, it would be dropped as stale and we
+		// would stay alive forever with Leave() never completing.
+		if m.hasLeft() {
+			return
+		}
 		m.refute(state, s.Incarnation)
 		m.logger.Printf("[WARN] memberlist: Refuting a suspect message (from: %s)", s.From)
 		return // Do not mark ourself suspect
@@ -1277,6 +1284,14 @@ func (m *Memberlist) deadNode(d *dead) {
 			m.refute(state, d.Incarnation)
 			m.logger.Printf("[WARN] memberlist: Refuting a dead message (from: %s)", d.From)
 			return // Do not mark ourself dead
+		}
+
+		// Somebody else's accusation that arrives while Leave() is about to
+		// apply our own dead message must not take its place: it would
+		// record (and gossip) us as failed instead of left, and complete
+		// Leave() without the departure ever being announced.
+		if d.Node != d.From {
+			return
 		}
 
 		// If we are leaving, we broadcast and wait
